@@ -190,6 +190,18 @@ func c01R2(c *Ctx) {
 				c.check(ok, p.name+"/"+dir.from+"=>"+t, "", "line type "+t+" sent by "+dir.sent[t]+" is expected by the peer role", "line type "+t+" (sent in "+dir.sent[t]+") is never expected by "+dir.to+": the peer would reject or hang")
 			}
 		}
+		// and the converse: every type a role waits for is a type the peer role sends (a reader waiting for a type nobody
+		// sends turns the peer's line into a "type mismatch" error, or waits until the timeout)
+		for _, dir := range []struct {
+			waiter string
+			exp    map[string]string
+			sent   map[string]string
+		}{{p.b, eb, sa}, {p.a, ea, sb}} {
+			for _, t := range keys(dir.exp) {
+				_, ok := dir.sent[t]
+				c.check(ok, p.name+"/"+dir.waiter+"<="+t, "", "line type "+t+" awaited in "+dir.exp[t]+" is sent by the peer role", "line type "+t+" (awaited in "+dir.exp[t]+") is never sent by the peer role")
+			}
+		}
 		if p.name == "files" {
 			c.note("types sent by sender %v, expected by receiver %v; sent by receiver %v, expected by sender %v", keys(sa), keys(eb), keys(sb), keys(ea))
 			need := []string{"NUM", "NAME", "SIZE", "DATA", "MD5"}
